@@ -36,6 +36,9 @@ CLAIMED = {
  'C09': dict(cat=TV, tech='all item rules of C01-C08 (each against a mode-free specification) over a configuration matrix: every mode value, auto under every steering co-feature set, gapless and holes',
    text='Each item rule compares an item with a specification that does not mention modes; this check requires every rule to pass for every enabled item in every configuration of the matrix (full mode product on four declarations, auto-steering sets, and all other corpus instances), which implies equal behaviour across configurations. What auto picks is not prescribed.' + PER,
    note=BASE, ref='5 C09'),
+ 'C10': dict(cat='other', tech='catalogue agreement (documentation parsed from the derive\'s doc comments vs parser facts from syn) + accept witnesses covering every (feature, mode, shape) cell, every feature pair, auto-steering sets, split attributes (token-identical expansions) + structural generator rules (check() monotone, generate() local, resolve = enable; auto; enable)',
+   text='The documented features, mode values and parameter names are read from /repo/src/lib.rs and must equal what the 18 parsers accept (this reports the open finding iter mode "match" and reported struct_name before its fix). ~2300 instances deriving only Clone+Copy must compile, covering each documented (feature, mode, gapless/holes) cell as a single-feature instance so that missing helper dependencies surface, all feature pairs, the sets that steer auto, and 1/2/3/5-attribute splits whose expansions must be token-identical. Monotone check() functions, feature-local generate() functions and the unconditional three-pass resolve are checked on the syn facts; they are what lets single-feature and pairwise witnesses stand for all subsets.',
+   note='rustc accept is the observation; the all-subsets argument is structural, not a proof; one known finding is listed in known_findings.json', ref='5 C10'),
  'C11': dict(cat=TV, tech='accept witnesses compiled by rustc; derived constant tables folded from MIR and compared with rustc AdtDef discriminants',
    text='Every instance of ' + CORPUS + ' must be accepted by the derive, and every table it emits (MIN/MAX, name table, variant table, run table with offsets) is constant-folded from its MIR initialiser and compared with the compiler\'s own discriminants; into/From must return the discriminant read.' + PER,
    note='trusts rustc (type check, MIR, AdtDef::discriminants) and the folder for literals/Neg/wrapping_sub/RangeInclusive::new; sizes near 65534 only in the thorough tier', ref='5 C11, 4.3'),
@@ -54,6 +57,12 @@ CLAIMED = {
  'C16': dict(cat='other', tech='absolute-path lint over all quote! templates (syn, after de-interpolation) with positive/negative fixtures; hostile-context accept witnesses (no_std, no_implicit_prelude, shadowing items/modules/macros); resolved-callee identity between clean and hostile context plus all item rules re-run on the hostile copies',
    text='(a) every path in every one of the 55 templates must be ::core-absolute, Self/self, an interpolation, a primitive, a template-local binding or imported by `use ::core::..` inside the template; every macro call must go through ::core. (b) ~900 instances covering every feature x mode x shape are recompiled in #![no_std] crates next to user structs, traits, fns, modules and macros named like prelude/core items. (c) on those copies all C01-C08 item rules pass and every derived body resolves to the same core callees as in the clean context - identical resolved code means identical behaviour.',
    note='the lint is syntactic (method resolution is left to rustc on the witnesses); primitive-type shadowing is outside the property\'s list', ref='5 C16'),
+ 'C17': dict(cat='other', tech='order-taint dataflow on the generator\'s own type-resolved MIR: every HashMap/HashSet iteration must reach a key-sorted Vec on all paths or only diagnostics; nondeterminism-source denylist over all resolved callees; compiled positive/negative fixtures',
+   text='All bodies of the generator crate are extracted from /repo with the rustc driver; every iteration over a hash container is enumerated (3 today, floor enforced); its data may flow only through the iterator protocol into a Vec whose sort (by the unique map key, checked on the closure bodies) dominates every return, or into proc_macro_error diagnostics; no body may call into time/env/process/thread/fs/net/RandomState or expose a pointer. This decides the property for all hash seeds and all processes at once, which no number of repeated expansions can.',
+   note='dependencies (syn, quote, proc-macro2, proc-macro-error) are assumed deterministic; error order of simultaneous diagnostics is outside the property', ref='5 C17'),
+ 'C18': dict(cat=TV, tech='token identity of expansions across permutation families and across repr families modulo repr/companion/suffix substitution (syn-normalised -Zunpretty=expanded), all item rules on every family member, width table of the repr->unsigned map',
+   text='40 families: one value set declared in all (n<=4) or several orders must expand to token-identical derived items; the same declaration over every fixed-width repr that holds the values must expand identically after replacing the repr, its unsigned companion and literal suffixes by placeholders; every member additionally passes all C01-C08 item rules (so the width-parametric arithmetic is right for each width); src/parser/mod.rs must map every repr to the unsigned type of the same width.',
+   note='token-identical derived items are taken to behave identically; pointer-sized reprs are covered by the item rules only', ref='5 C18'),
  'C19': dict(cat=TV, tech='resolved signatures from tcx (fn_sig, is_const_fn, type_of, impl_trait_ref) compared with the documented ones for every instance of the configuration corpus',
    text='For every corpus instance (every mode of every moded feature, gapless and with holes, 12 reprs) the documented signature of every requested item is compared with what rustc resolved: parameter and return types, const-ness of into, associated-const types, trait impls with their associated types, the four iterator traits with Item.',
    note='trusts rustc\'s resolved signatures; the configuration quantifier is covered by the corpus', ref='5 C19'),
@@ -67,6 +76,7 @@ m = {
            'baseline_off_cmd': 'cd /repo && cargo test --workspace --no-fail-fast --offline', 'source_commits': [], 'add_only': True},
  'engines': [
   {'name': 'factdump', 'path': 'factdump/', 'serves_properties': sorted(CLAIMED), 'kind_free_text': 'rustc_private driver: serialises ADTs, items, resolved signatures/visibility and MIR with resolved callees of witness crates and of /repo'},
+  {'name': 'tmplx', 'path': 'tmplx/', 'serves_properties': ['C10', 'C16', 'C18'], 'kind_free_text': 'syn-based extractor of generator facts (quote! templates, parser literals, assignments) and of normalised item tokens from expanded sources'},
   {'name': 'corpus', 'path': 'corpus/', 'serves_properties': sorted(CLAIMED), 'kind_free_text': 'python: class-structured witness declarations/configurations, written to a scratch cargo workspace per run'},
   {'name': 'rules', 'path': 'rules/ props/', 'serves_properties': sorted(CLAIMED), 'kind_free_text': 'python rule engine: CFG, dominators, reaching definitions, terms, guards, constant folding, table facts, per-property rules'},
  ],
